@@ -109,7 +109,7 @@ class Sym:
         s.funcs_run = set(); s.check_divzero = True; s.divzero_paths = 0
         s.contracts = {}    # mangled name -> callable(sym, st, args) -> return value: callee replaced by its (separately proved) contract
         s.contracts_used = set()
-        s._bcache = {}
+        s._bcache = {}; s._trig_done = set(); s.trig_instances = []
         s.witnesses = []    # (Rat radicand, z3 var y) for every sqrt / length() witness introduced: y >= 0, y*y == radicand
 
     def newreal(s, name):
@@ -273,6 +273,28 @@ class Sym:
             s.axioms.append(sv * sv + cv * cv == 1)
         sv, cv, _ = s.uf[key]
         return Rat(sv), Rat(cv)
+
+    def instantiate_trig_axioms(s):
+        """parity and double-angle instances for every pair of registered sin/cos arguments whose ratio is -1, 2 or -2
+        (decided by a premise-free identity check); each instance is recorded in s.axioms / s.trig_instances"""
+        keys = list(s.uf.items())
+        for i, (ka, (sa, ca, xa)) in enumerate(keys):
+            for j, (kb, (sb, cb, xb)) in enumerate(keys):
+                if i == j or (ka, kb) in s._trig_done: continue
+                s._trig_done.add((ka, kb))
+                for k in (-1, 2, -2):
+                    # xb == k * xa ?
+                    idn = (xb.n * xa.d == k * xa.n * xb.d)
+                    if isinstance(idn, bool): ok = idn
+                    else:
+                        q = z3.Solver(); q.set('timeout', 1000); q.add(z3.Not(idn)); ok = (q.check() == z3.unsat)
+                    if not ok: continue
+                    if k == -1: ax = [sb == -sa, cb == ca]
+                    elif k == 2: ax = [sb == 2 * sa * ca, cb == ca * ca - sa * sa]
+                    else: ax = [sb == -2 * sa * ca, cb == ca * ca - sa * sa]
+                    s.axioms += ax
+                    s.trig_instances.append('arg[%s] == %d * arg[%s]' % (kb[0][:40], k, ka[0][:40]))
+                    break
 
     def block(s, f, blocks, st, lbl, prev, start=0):
         insts = blocks[lbl]
@@ -605,10 +627,16 @@ def check_sat(cons, timeout_ms):
     cons = [c for c in cons if c is not True]
     if any(c is False for c in cons): 
         sol = z3.Solver(); sol.add(z3.BoolVal(False)); return sol.check(), sol
+    # stage 1: nlsat, short (most identities and easy path conditions are immediate)
+    b = z3.Solver(); b.set('timeout', max(200, min(2000, int(timeout_ms * 0.15)))); b.add(*cons)
+    r = b.check()
+    if r != z3.unknown: return r, b
+    # stage 2: SMT core with nonlinear lemmas
     a = z3.Tactic('smt').solver(); a.set('timeout', max(200, int(timeout_ms * 0.3))); a.add(*cons)
     r = a.check()
     if r != z3.unknown: return r, a
-    b = z3.Solver(); b.set('timeout', max(300, int(timeout_ms * 0.7))); b.add(*cons)
+    # stage 3: nlsat with the remaining budget
+    b = z3.Solver(); b.set('timeout', max(300, int(timeout_ms * 0.55))); b.add(*cons)
     r = b.check()
     return r, b
 
